@@ -4,6 +4,9 @@ theories/Spec/BV.vos theories/Spec/BV.vok theories/Spec/BV.required_vos: theorie
 theories/Spec/Eval.vo theories/Spec/Eval.glob theories/Spec/Eval.v.beautified theories/Spec/Eval.required_vo: theories/Spec/Eval.v theories/Model/Expr.vo
 theories/Spec/Eval.vio: theories/Spec/Eval.v theories/Model/Expr.vio
 theories/Spec/Eval.vos theories/Spec/Eval.vok theories/Spec/Eval.required_vos: theories/Spec/Eval.v theories/Model/Expr.vos
+theories/Spec/ReachFix.vo theories/Spec/ReachFix.glob theories/Spec/ReachFix.v.beautified theories/Spec/ReachFix.required_vo: theories/Spec/ReachFix.v theories/Spec/System.vo
+theories/Spec/ReachFix.vio: theories/Spec/ReachFix.v theories/Spec/System.vio
+theories/Spec/ReachFix.vos theories/Spec/ReachFix.vok theories/Spec/ReachFix.required_vos: theories/Spec/ReachFix.v theories/Spec/System.vos
 theories/Spec/System.vo theories/Spec/System.glob theories/Spec/System.v.beautified theories/Spec/System.required_vo: theories/Spec/System.v theories/Spec/Eval.vo
 theories/Spec/System.vio: theories/Spec/System.v theories/Spec/Eval.vio
 theories/Spec/System.vos theories/Spec/System.vok theories/Spec/System.required_vos: theories/Spec/System.v theories/Spec/Eval.vos
@@ -19,6 +22,9 @@ theories/Model/Simplify.vos theories/Model/Simplify.vok theories/Model/Simplify.
 theories/Proofs/BVLemmas.vo theories/Proofs/BVLemmas.glob theories/Proofs/BVLemmas.v.beautified theories/Proofs/BVLemmas.required_vo: theories/Proofs/BVLemmas.v theories/Spec/BV.vo
 theories/Proofs/BVLemmas.vio: theories/Proofs/BVLemmas.v theories/Spec/BV.vio
 theories/Proofs/BVLemmas.vos theories/Proofs/BVLemmas.vok theories/Proofs/BVLemmas.required_vos: theories/Proofs/BVLemmas.v theories/Spec/BV.vos
+theories/Proofs/BfsProofs.vo theories/Proofs/BfsProofs.glob theories/Proofs/BfsProofs.v.beautified theories/Proofs/BfsProofs.required_vo: theories/Proofs/BfsProofs.v theories/Spec/ReachFix.vo
+theories/Proofs/BfsProofs.vio: theories/Proofs/BfsProofs.v theories/Spec/ReachFix.vio
+theories/Proofs/BfsProofs.vos theories/Proofs/BfsProofs.vok theories/Proofs/BfsProofs.required_vos: theories/Proofs/BfsProofs.v theories/Spec/ReachFix.vos
 theories/Proofs/EvalImplProofs.vo theories/Proofs/EvalImplProofs.glob theories/Proofs/EvalImplProofs.v.beautified theories/Proofs/EvalImplProofs.required_vo: theories/Proofs/EvalImplProofs.v theories/Model/EvalImpl.vo theories/Proofs/ExprLemmas.vo
 theories/Proofs/EvalImplProofs.vio: theories/Proofs/EvalImplProofs.v theories/Model/EvalImpl.vio theories/Proofs/ExprLemmas.vio
 theories/Proofs/EvalImplProofs.vos theories/Proofs/EvalImplProofs.vok theories/Proofs/EvalImplProofs.required_vos: theories/Proofs/EvalImplProofs.v theories/Model/EvalImpl.vos theories/Proofs/ExprLemmas.vos
@@ -28,6 +34,12 @@ theories/Proofs/EvalProofs.vos theories/Proofs/EvalProofs.vok theories/Proofs/Ev
 theories/Proofs/ExprLemmas.vo theories/Proofs/ExprLemmas.glob theories/Proofs/ExprLemmas.v.beautified theories/Proofs/ExprLemmas.required_vo: theories/Proofs/ExprLemmas.v theories/Model/Expr.vo
 theories/Proofs/ExprLemmas.vio: theories/Proofs/ExprLemmas.v theories/Model/Expr.vio
 theories/Proofs/ExprLemmas.vos theories/Proofs/ExprLemmas.vok theories/Proofs/ExprLemmas.required_vos: theories/Proofs/ExprLemmas.v theories/Model/Expr.vos
+theories/Proofs/ReachFixProofs.vo theories/Proofs/ReachFixProofs.glob theories/Proofs/ReachFixProofs.v.beautified theories/Proofs/ReachFixProofs.required_vo: theories/Proofs/ReachFixProofs.v theories/Spec/ReachFix.vo theories/Proofs/BfsProofs.vo theories/Proofs/EvalProofs.vo
+theories/Proofs/ReachFixProofs.vio: theories/Proofs/ReachFixProofs.v theories/Spec/ReachFix.vio theories/Proofs/BfsProofs.vio theories/Proofs/EvalProofs.vio
+theories/Proofs/ReachFixProofs.vos theories/Proofs/ReachFixProofs.vok theories/Proofs/ReachFixProofs.required_vos: theories/Proofs/ReachFixProofs.v theories/Spec/ReachFix.vos theories/Proofs/BfsProofs.vos theories/Proofs/EvalProofs.vos
 theories/Props/C06.vo theories/Props/C06.glob theories/Props/C06.v.beautified theories/Props/C06.required_vo: theories/Props/C06.v theories/Model/EvalImpl.vo theories/Proofs/EvalProofs.vo theories/Proofs/EvalImplProofs.vo
 theories/Props/C06.vio: theories/Props/C06.v theories/Model/EvalImpl.vio theories/Proofs/EvalProofs.vio theories/Proofs/EvalImplProofs.vio
 theories/Props/C06.vos theories/Props/C06.vok theories/Props/C06.required_vos: theories/Props/C06.v theories/Model/EvalImpl.vos theories/Proofs/EvalProofs.vos theories/Proofs/EvalImplProofs.vos
+theories/Props/C10.vo theories/Props/C10.glob theories/Props/C10.v.beautified theories/Props/C10.required_vo: theories/Props/C10.v theories/Spec/ReachFix.vo theories/Proofs/BfsProofs.vo theories/Proofs/ReachFixProofs.vo
+theories/Props/C10.vio: theories/Props/C10.v theories/Spec/ReachFix.vio theories/Proofs/BfsProofs.vio theories/Proofs/ReachFixProofs.vio
+theories/Props/C10.vos theories/Props/C10.vok theories/Props/C10.required_vos: theories/Props/C10.v theories/Spec/ReachFix.vos theories/Proofs/BfsProofs.vos theories/Proofs/ReachFixProofs.vos
